@@ -22,15 +22,22 @@ PICK = {
     'C15 harness/hwal.HarnessSizes {"center": 67108863, "enc": 1, "reopenfirst": 0, "seg": 134217728, "shapes": 1, "width": 3}',
 }
 env = dict(os.environ, GOFLAGS="-mod=mod", GOPROXY="off", GOSUMDB="off", GOTOOLCHAIN="local")
-for pid in sorted(cands):
+ALL = os.environ.get("CALIB_ALL") == "1"          # measure the 40m/60m guesses too
+NOHEAVY = os.environ.get("CALIB_NOHEAVY") == "1"  # leave the 2^26-byte runs to a run with enough memory
+def guess(r):
+    return int(r.get("timeout", "10m").rstrip("m"))
+work = sorted(((guess(r), pid, i, r) for pid in sorted(cands) for i, r in enumerate(cands[pid])), key=lambda t: t[:3])
+for _, pid, _, r in work:
     if only and pid not in only:
         continue
-    for r in cands[pid]:
+    if NOHEAVY and r.get("heavy"):
+        continue
+    if True:
         key = "%s %s.%s %s" % (pid, r["pkg"], r["fn"], json.dumps(r.get("params", {}), sort_keys=True))
-        if key in calib:
+        if key in calib and not (ALL and calib[key].get("why", "").startswith("not measured")):
             continue
         # candidates whose guessed cost is 40 minutes or more are measured only when picked here
-        if r.get("timeout") in ("40m", "60m") and key not in PICK:
+        if r.get("timeout") in ("40m", "60m") and key not in PICK and not ALL:
             calib[key] = {"ok": False, "wall": 0, "paths": 0, "why": "not measured (expected to need more than the calibration cap)"}
             continue
         this_cap = cap * (3 if r.get("heavy") else 1)
